@@ -679,3 +679,13 @@ Proof.
 Qed.
 Lemma flat_of_dotted kw : flat_of (dotted kw) = kw.
 Proof. unfold flat_of, dotted. induction kw as [|[k v] kw IH]; cbn; [reflexivity|]. now rewrite IH. Qed.
+
+(* Pipeline.run validates its keywords before anything else; a rejection has an empty call log *)
+Lemma nrun_checked_cases body pick p o kw :
+  nrun_checked body pick p o kw = nrun body pick p o kw
+  \/ exists e, nrun_checked body pick p o kw = (Err e, []).
+Proof.
+  unfold nrun_checked. destruct (negb (is_node (funcs p) o) || existsb _ kw); [now left|].
+  destruct (flatten_scopes (funcs p) kw); [|now left].
+  destruct (run_precheck (funcs p) o (flat_vals a)); [now left|right; eauto].
+Qed.
